@@ -421,6 +421,7 @@ struct Emit {
     stats: Vec<(String, u64)>,
     sample: Option<String>,
     distinct: Vec<String>,
+    exec_seen: std::collections::HashSet<String>,
 }
 impl Emit {
     fn stat(&mut self, k: &str, n: u64) {
@@ -514,6 +515,14 @@ fn canon_states_answer(e: &Explicit, status: u16, body: &[u8], with_path: bool, 
                 }
                 let head = l.clone().unwrap_or("i".into());
                 let path = if with_path { format!(" {}", svg.map(|s| svg_to_path(e, s)).unwrap_or("nosvg".into())) } else { String::new() };
+                // the path the Explorer rebuilt from the url's fingerprints (Path::from_fingerprints, shown by as_svg) must be
+                // an execution of the model: handed to the oracle (`o-exec`)
+                if with_path {
+                    if let Some(sv) = svg {
+                        let ptxt = svg_to_path(e, sv);
+                        if !ptxt.contains('?') && em.exec_seen.insert(ptxt.clone()) { em.o.push(format!("o-exec {} {}", e.sx(), ptxt)); }
+                    }
+                }
                 mrows.push(format!("({} {} {}{})", head, sid_s, fp, path));
                 orows.push(format!("({} {})", head, sid_s));
             }
@@ -911,6 +920,7 @@ fn path_api_cases(g: &GraphModel, e: &Explicit, r: &mut Rng, out: &mut Out, n: u
                 out.stat("from-actions-panic");
             }
             Ok(None) => {
+                out.o(&format!("o-fromacts {} {} {} none", gsx, i_id, a_sx));
                 out.m(&format!("path-fromacts {} {} {}", gsx, i_id, a_sx), "none");
                 out.stat("from-actions-none");
             }
@@ -927,6 +937,7 @@ fn path_api_cases(g: &GraphModel, e: &Explicit, r: &mut Rng, out: &mut Out, n: u
                     })
                     .collect();
                 out.m(&format!("path-fromacts {} {} {}", gsx, i_id, a_sx), &format!("({})", txt.join(" ")));
+                out.o(&format!("o-fromacts {} {} {} ({})", gsx, i_id, a_sx, txt.join(" ")));
                 let states: Vec<String> = p.clone().into_states().iter().map(|s| sid(*s).unwrap().to_string()).collect();
                 let actions: Vec<String> = p.clone().into_actions().iter().map(|a| lid(a).unwrap().to_string()).collect();
                 let enc = p.encode();
